@@ -60,9 +60,12 @@ func runRapid(t *testing.T, sub *lab.SubCheck, name, terminal string, quick, tho
 			if v.Excluded != "" {
 				sub.Excluded(v.Excluded)
 			}
+			if c.Interim != 0 {
+				v.Labels = append(v.Labels, "backend-interim-response")
+			}
 			sub.Case(c, v.Nontrivial, v.Labels...)
 			if v.Viol != "" {
-				rt.Fatalf("%s\n=> %s", c.describe(), v.Viol)
+				rt.Fatalf("%s\n(backend interim response: %d)\n=> %s", c.describe(), c.Interim, v.Viol)
 			}
 		}
 		sl := l.Stub
@@ -87,9 +90,10 @@ func TestC15StubRapid(t *testing.T) {
 }
 
 func TestC15ProxyRapid(t *testing.T) {
-	sub := lab.Sub("real-balancer-rapid", "rapid, chain -> REAL balancer -> raw scripted TCP backend playing a byte-exact response (Content-Length / chunked / close-delimited framing, drawn write partition), raw TCP client without auto-decoding: "+genRule)
+	sub := lab.Sub("real-balancer-rapid", "rapid, chain -> REAL balancer -> raw scripted TCP backend playing a byte-exact response (Content-Length / chunked / close-delimited framing, drawn write partition, in one exchange of six preceded by an interim 100 / 102 / 103 response), raw TCP client without auto-decoding: "+genRule)
 	addFloors(sub)
 	sub.Floor("no-content-length", 0.25)
 	sub.Floor("declared-content-length", 0.25)
+	sub.Floor("backend-interim-response", 0.08)
 	runRapid(t, sub, "real-balancer-rapid", "balancer", 5000, 30000)
 }
